@@ -38,7 +38,19 @@ fn main() {
             } else {
                 let mut it = what.split(':');
                 let _ = it.next();
-                let cfg = Cfg::from_name(it.next().unwrap_or("HlslForDirectX")).unwrap_or(Cfg::Dx);
+                let cfg = match it.next().unwrap_or("dx") {
+                    "dx" => Cfg::Dx,
+                    "vk" => Cfg::Vk,
+                    "vkba" => Cfg::VkBa,
+                    "msl" => Cfg::Msl,
+                    other => match Cfg::from_name(other) {
+                        Some(c) => c,
+                        None => {
+                            println!("unknown target {:?} (dx, vk, vkba, msl)", other);
+                            return;
+                        }
+                    },
+                };
                 let mode = match it.next() {
                     None | Some("nopipe") => Mode::NoPipeline,
                     Some("all") => Mode::All,
